@@ -417,6 +417,8 @@ def check_histories(repo, rep, tier):
 
 
 def run(repo: Repo, rep, tier: str):
+    from vlib import memo
+    rep.guarded(memo.check, repo, rep, "C18-R5", [(DNA, "DynamicNumpyArray")], "backing array, index, capacity")
     rep.exhaustive = True
     rep.assume("backing capacity exceeds the logical length (capacity invariant across arbitrary append/delete histories is not decided)")
     rep.assume("index cells are witnessed on the grid n in {0,1,3,5}, bounds in [-7, 7]; beyond the grid behaviour is the clamped/raising cell already witnessed")
